@@ -302,7 +302,7 @@ def task(item: tuple[int, str]) -> dict[str, Any]:
     if info.get("par_error"):
         raise kit.HarnessError("scheduler summary failed: " + info["par_error"])
     if r["violation"] is not None:
-        out["violation"] = {"scenario": scn, "violation": r["violation"], "script": p.get("decisions")}
+        out["violation"] = {"scenario": scn, "violation": r["violation"], "script": p.get("decisions"), "family": "corpus" if k >= 500000 else "model", "k": k}
     return out
 
 
@@ -371,7 +371,7 @@ def finalise_task(v: dict[str, Any]) -> dict[str, Any]:
             small = {"scenario": v["scenario"], "script": None}
         else:
             small = v
-    return {"scenario": small["scenario"], "script": small.get("script"), "violation": r["violation"]}
+    return {"scenario": small["scenario"], "script": small.get("script"), "violation": r["violation"], "family": v.get("family"), "k": v.get("k")}
 
 
 def match_known(v: dict[str, Any], known: list[dict[str, Any]]) -> dict[str, Any] | None:
@@ -428,26 +428,24 @@ def run(tier: str) -> int:
             if "case" in v["scenario"] and v["violation"]["kind"] not in SOFT:
                 key += ":" + v["scenario"]["case"]
             by_class.setdefault(key, []).append(v)
-    unknown = []
+    unknown: dict[str, list[dict[str, Any]]] = {}
     for cls, vs in sorted(by_class.items()):
-        if vs[0]["violation"]["kind"] == "soft":
-            es = kit.match_soft(vs[0]["violation"]["classes"], known_soft)
-            if es is not None:
-                for e_ in es:
-                    rep.known_finding(e_["what"])
-                rep.probes["soft_" + vs[0]["violation"]["classes"]] = rep.probes.get("soft_" + vs[0]["violation"]["classes"], 0) + len(vs)
+        for v in vs:
+            if v["violation"]["kind"] == "soft":
+                es = kit.match_soft(v["violation"]["classes"], known_soft)
+                if es is not None:
+                    for e_ in es:
+                        rep.known_finding(e_["what"])
+                    rep.probes["soft_" + v["violation"]["classes"]] = rep.probes.get("soft_" + v["violation"]["classes"], 0) + 1
+                    continue
+            e = kit.match_member(v, known) or match_known(v, known)
+            if e is not None:
+                rep.known_finding(e["what"])
                 continue
-            unknown.append(vs[0])
-            continue
-        e = match_known(vs[0], known)
-        if e is not None:
-            rep.known_finding(f"{e['what']} (class {cls}, occurrences this run: {len(vs)})")
-        else:
-            unknown.append(vs[0])
-    finals, _ = kit.run_pool(finalise_task, unknown)
-    for v in finals:
+            unknown.setdefault(cls, []).append(v)
+    for v in kit.finalise_classes(finalise_task, unknown):
         path = kit.write_replay(PROP, {"engine": "parsched", **v})
-        rep.violation(path, v["violation"]["kind"] + " " + str(v["violation"].get("where", "")))
+        rep.violation(path, f"{v['violation']['kind']} {v['violation'].get('where', '')} class={v['cls']} members={v['members'][:10]}")
     rep.extra["distinct_assignment_and_delivery_orders"] = len(assignments)
     rep.extra["scheduler_decisions"] = total_dec
     rep.extra["determinism_selftest"] = {"scenarios_run_twice": len(det), "mismatches": 0}
